@@ -20,6 +20,7 @@ import (
 type c07Stream struct {
 	sizes []int // flush sizes, in order
 	close bool
+	lazy  bool // every operation of this writer may be delayed to any later moment (one deviation per operation placed)
 }
 
 type c07Opts struct {
@@ -58,14 +59,21 @@ func c07Body(o c07Opts) func() {
 		var ths []*vrt.Thread
 		for k := range o.streams {
 			k := k
-			ths = append(ths, vrt.GoProc(fmt.Sprintf("writer%d", k), 1, func() {
+			start := vrt.GoProc
+			if o.streams[k].lazy {
+				start = vrt.GoLazy // (lazy from its creation: placing its first operation costs one deviation, not two)
+			}
+			ths = append(ths, start(fmt.Sprintf("writer%d", k), 1, func() {
 				st, err := p.c.OpenStream()
 				if err != nil {
 					vrt.Failf("harness", "open: %v", err)
 				}
 				ids[k] = st.id
 				opened[k] = true
-				for _, sz := range o.streams[k].sizes {
+				for i, sz := range o.streams[k].sizes {
+					if o.streams[k].lazy && i > 0 {
+						vrt.AnyMoment()
+					}
 					data := patBytes(int(st.id), len(sent[k]), sz)
 					st.BufferWriter().WriteBytes(data)
 					if err := st.Flush(false); err != nil {
@@ -80,6 +88,9 @@ func c07Body(o c07Opts) func() {
 					}
 				}
 				if o.streams[k].close {
+					if o.streams[k].lazy {
+						vrt.AnyMoment()
+					}
 					if err := st.Close(); err != nil {
 						vrt.Failf("close-error", "close: %v", err)
 					}
@@ -181,6 +192,10 @@ func TestVerif_C07(t *testing.T) {
 		mk(c07Opts{name: "shm-fallback-sticky-close", freeSmall: 2, streams: []c07Stream{{sizes: []int{5, 100, 4}, close: true}}}, 2, 3),
 		mk(c07Opts{name: "fallback-close", freeSmall: 2, streams: []c07Stream{{sizes: []int{100}, close: true}}}, 2, 3),
 		mk(c07Opts{name: "two-streams-mixed", freeSmall: 3, streams: []c07Stream{{sizes: []int{5, 60}, close: true}, {sizes: []int{7, 6}, close: true}}}, 1, 2),
+		// a stream in fallback beside a stream that goes shm, then fallback, then closes; the second writer's operations may
+		// each land at any moment of the first one's (a wake-up parked behind a busy connection, then data on the socket)
+		mk(c07Opts{name: "fallback-stream-beside-lazy-shm-then-fallback", freeSmall: 2, streams: []c07Stream{{sizes: []int{100}}, {sizes: []int{5, 100}, close: true, lazy: true}}}, 1, 2),
+		mk(c07Opts{name: "callback-fallback-stream-beside-lazy-shm-then-fallback", callback: true, freeSmall: 2, streams: []c07Stream{{sizes: []int{100}}, {sizes: []int{5, 100}, lazy: true}}}, 2, 3),
 		mk(c07Opts{name: "request-response", streams: []c07Stream{{sizes: []int{5}, close: true}}, respond: 6}, 1, 2),
 		mk(c07Opts{name: "callback-data-then-close", callback: true, streams: []c07Stream{{sizes: []int{5}, close: true}}}, 1, 2),
 		mk(c07Opts{name: "callback-two-streams", callback: true, freeSmall: 3, streams: []c07Stream{{sizes: []int{5, 60}}, {sizes: []int{7}}}}, 1, 2),
